@@ -49,7 +49,7 @@ def convert(stracefile, testdir, out):
             parts = os.path.basename(path).split('.')
             if parts[1] == 'call':
                 size, pre, kind = int(parts[2]), int(parts[3]), parts[4]
-                events.append(dict(ev='call', size=size, pre=pre, kind=kind, prestate=parts[5], fail=parts[6]))
+                events.append(dict(ev='call', size=size, pre=pre, kind=kind, prestate=parts[5], fail=parts[6], held=parts[5] == 'held'))
                 active = True
                 fdmap = {}
                 item = None
